@@ -152,6 +152,10 @@ Definition hc_step (rise fall : N) (s : hc_state) (ok : bool) : hc_state :=
 
 Definition hc_run (rise fall : N) (s : hc_state) (results : list bool) : hc_state := fold_left (hc_step rise fall) results s.
 
+(* the thresholds can be reconfigured while the monitor runs (ResetHealthCheck): each check uses the ones in force *)
+Definition hc_run_cfg (s : hc_state) (l : list (N * N * bool)) : hc_state :=
+  fold_left (fun s x => hc_step (fst (fst x)) (snd (fst x)) s (snd x)) l s.
+
 Fixpoint trailing (b : bool) (rev_hist : list bool) : N :=
   match rev_hist with
   | x :: t => if Bool.eqb x b then 1 + trailing b t else 0
